@@ -60,7 +60,7 @@ def replay(rec: dict) -> bool:
     r = rec["replay"]
     if r.get("kind") == "scenario":
         from harness.rigs import agents_scenarios as sc
-        return not sc.run_scenario(r["scenario"], r["seed"], r["steps"], r.get("blue", "random"))["violations"]
+        return not sc.run_scenario(r["scenario"], r["seed"], r["steps"], r.get("blue", "random"), r.get("tweak", ""))["violations"]
     case = r["case"]
     ok, a, b, i, lines, problems = _diff_case(case)
     if kind_is_prob(case) and _oracle_prob(case, a):
